@@ -28,7 +28,7 @@ man = {
     "engines": [{"name": "symx", "path": "qverif/symx.py", "serves_properties": [c["property_id"] for c in checks], "kind_free_text": "shadow symbolic execution of the real quansino bytecode on z3-backed proxy values held in numpy object arrays (re-execution DFS over branch decisions); obligations discharged by z3 5.1 with per-query timeouts; every counterexample is replayed against the unpatched code before it is reported"}],
     "checks": checks,
     "not_applicable": na,
-    "notes": "Exit codes: 0 holds within bounds, 1 reproduced violation, 2 inconclusive, 3 harness error. Known findings in known_findings.json.",
+    "notes": "Exit codes: 0 holds within bounds, 1 reproduced violation, 2 inconclusive, 3 harness error. Known findings in known_findings.json. Every run regenerates the encoding from /repo's current source (the real functions are executed on solver-backed proxies), replays every solver counterexample on the unpatched real code before reporting it, and replays witnesses of clean symbolic paths on the real code to validate the encoding (path_validation in the evidence).",
 }
 json.dump(man, open(os.path.join(ROOT, "MANIFEST.json"), "w"), indent=1)
 print("claimed:", [c["property_id"] for c in checks])
